@@ -165,9 +165,9 @@ func (p *provider) watchChanges(ctx context.Context, rsf RuleSetFetcher) error {
 			Str("_endpoint", rsf.ID()).
 			Msg("Failed to fetch rule set")
 
-		if errors.Is(err, heimdall.ErrInternal) || errors.Is(err, heimdall.ErrConfiguration) {
-			return err
-		}
+		// neither on internal errors, nor on network issues anything is known about the
+		// bucket: the rule sets previously received from it are preserved
+		return err
 	}
 
 	state := p.getBucketState(rsf.ID())
